@@ -1273,7 +1273,8 @@ def fam_C13(rng, tier):
     causes = []
     for r in m.DISCONNECT_REASONS:
         causes.append(('sdisc', r))
-    causes += [('sdisc-empty', 0), ('udisc', 0), ('udisc', 0x04), ('udisc-cancelled', 0), ('eof', 0), ('err', 0), ('handles', 0),
+    causes += [('sdisc-empty', 0), ('udisc', 0), ('udisc', 0x04), ('udisc-cancelled', 0), ('udisc-batch', 0), ('udisc-batch', 1),
+               ('udisc-batch', 2), ('udisc-batch', 3), ('batch-udisc', 0), ('eof', 0), ('err', 0), ('handles', 0),
                ('garbage', 0), ('badlen', 0), ('werr', 0)]
     for cause, r in causes:
         for st in states():
@@ -1298,6 +1299,31 @@ def fam_C13(rng, tier):
                 s.add(f'DROP op{o}')
                 s.add('RELEASE ctx')
                 s.publish(0)
+            elif cause == 'udisc-batch':
+                # requests already queued BEHIND the user's DISCONNECT when the context task gets to it (issued from
+                # another clone between two polls of run()): nothing of them may be written
+                s.add('CLONE h0 h1')
+                s.handles.append(1)
+                s.add('HOLD ctx')
+                s.disconnect([('r', 0)])
+                if r == 0:
+                    s.publish(0, 1)
+                elif r == 1:
+                    s.publish(1, 1)
+                elif r == 2:
+                    s.ping(1)
+                else:
+                    s.publish(2, 1); s.subscribe(h=1); s.publish(0, 1)
+                s.add('RELEASE ctx')
+            elif cause == 'batch-udisc':
+                # the other way round: what was queued BEFORE the DISCONNECT is written, then run() ends
+                s.add('CLONE h0 h1')
+                s.handles.append(1)
+                s.add('HOLD ctx')
+                s.publish(1, 1); s.ping(1)
+                s.disconnect([('r', 0)])
+                s.publish(0, 1)
+                s.add('RELEASE ctx')
             elif cause == 'eof':
                 s.add('FEEDEOF')
             elif cause == 'err':
